@@ -1,17 +1,34 @@
 /-
   EG.Model.DrawProg — the `?`-propagation skeleton of a draw path (C04).
 
-  A drawable cannot observe its target except through the `Result` of each call (Rust generics
-  are parametric in the target), so a fault-free `draw` is a fixed sequence of target calls. Each
-  call site either propagates an error (`?`, tail position, `return`, `try_for_each`) or discards
-  it. `runFaulty k` is the run in which the k-th call on the target fails with error value `k`.
+  What is modelled. A fault-free `draw` is a fixed sequence of target calls (a drawable cannot
+  observe its target except through the `Result` of each call, Rust generics being parametric in
+  the target). Each of these calls is made at a *call site* of the library's source, reached
+  through a stack of enclosing call sites (`Styled::draw` -> `draw_styled` -> `draw_stroke` ->
+  `Scanline::draw` -> `fill_solid`; adapters and the trait's default methods are call sites like any
+  other). `Generated/DrawSites.lean` lists every call site of every function that returns the
+  target's error, with the translator's classification of what the site does with the `Result`.
+  An `Event` is one dynamic target call: the stack of sites it is made through, and the call.
+
+  What is NOT modelled. Loops, branches and the data that decides them are abstracted away: a draw
+  path is *any* finite sequence of events over the sites of the table (`prefix_law_sites` quantifies
+  over all of them, so in particular over the real ones). The meaning of a classification is not
+  derived from Rust's semantics here: `runFaultyFrom` *defines* that an error stops the run at once
+  iff every site on the failing call's stack is classified as propagating (`q`, `tail`, `ret`,
+  `bound_q`, `match_ret`, `tryclosure` — see tools/tr_drawsites.py for the syntactic conditions and
+  tools/tests/drawsites_cases.rs for the forms that were validated against a fault-injecting
+  target). That the real `draw` behaves like this interpreter is what the fault enumeration on the
+  real code (harness module `faults`) checks; it is not proved.
 -/
 import EG.Model.Target
+import EG.Generated.DrawSites
 namespace EG
+open EG.Generated
 
 structure Step where
   call : Call
-  /-- does the call site hand an `Err` to its caller (all the way up to `draw`'s return)? -/
+  /-- does an `Err` of this call reach `draw`'s return at once (every call site on the stack hands
+  it to its caller without evaluating anything else)? -/
   propagated : Bool
   deriving Repr
 
@@ -27,7 +44,8 @@ structure Outcome where
   deriving Repr
 
 /-- Run with the `k`-th call (counting attempted calls from `i`) failing with error value `k`.
-A propagated error ends the run at once; a discarded error lets the run continue. -/
+BY DEFINITION a propagated error ends the run at once and a non-propagated error lets the run
+continue (and is lost). -/
 def runFaultyFrom (k : Nat) : Nat → List Step → Outcome
   | _, [] => ⟨0, [], none⟩
   | i, s :: rest =>
@@ -41,5 +59,28 @@ def runFaultyFrom (k : Nat) : Nat → List Step → Outcome
       ⟨o.attempted + 1, s.call :: o.log, o.result⟩
 
 def runFaulty (k : Nat) (p : List Step) : Outcome := runFaultyFrom k 0 p
+
+/-- Which classifications of the translator mean "an `Err` of this call is returned unchanged by
+the enclosing function, at once". `discarded` (a form known to drop, defer or replace the error)
+and `unknown` (a form the scan does not understand) do not. -/
+def Generated.SiteKind.propagates : SiteKind → Bool
+  | .q | .tail | .ret | .boundQ | .matchRet | .tryClosure => true
+  | .discarded | .unknown => false
+
+/-- One dynamic target call: the call sites on the stack when it is made (outermost first; the
+last one is the site of the target method call itself) and the call. -/
+structure Event where
+  stack : List DrawSite
+  call : Call
+  deriving Repr
+
+/-- The step of an event: its error reaches `draw`'s return at once iff the call was made at a
+site (non-empty stack) and every site on the stack is classified as propagating — the flags come
+from the generated table, not from the caller. -/
+def Event.step (e : Event) : Step :=
+  ⟨e.call, !e.stack.isEmpty && e.stack.all (·.kind.propagates)⟩
+
+/-- The step list of a draw path, built FROM the generated classifications. -/
+def stepsOf (es : List Event) : List Step := es.map Event.step
 
 end EG
